@@ -8,6 +8,7 @@ ID = "C06"
 COQ_IMPORTS = ["From HTA.model Require Import C06_Model."]
 SOURCES = {"hta/analyzers/breakdown_analysis.py": ["get_idle_time_breakdown", "_analyze_idle_time_for_stream"],
            "hta/trace_analysis.py": ["get_idle_time_breakdown"], "hta/utils/utils.py": ["IdleTimeType"]}
+INPUT_CONTRACT = True        # the loaded frame is re-checked against the file (framework.input_contract)
 N_CASES = {"quick": 300, "thorough": 5000}
 RULE = ("generated well-formed file sets whose kernels do not overlap within a stream (FIFO placement; tiny and wide time domains; kernels starting exactly "
         "when the previous one ends; zero-length kernels; missing launches, orphan kernels with and without id; memcpy/memset; first file entry starting late); "
